@@ -263,7 +263,39 @@ def run(res, tier, seed, widen=1):
     res.count("kilo_bound_values", len(range(0, 1000000, step)))
     if tier == "thorough":
         res.extra["exhaustive_kilo_domain"] = "all three-decimal values 0.000..999.999"
+    # the model of float(text) against the built-in, directly: every 7-bit character before / after / inside a number (float()
+    # skips C white space only - not 0x1C..0x1F, which str.strip() removes), and random texts over the number alphabet
+    ftexts = []
+    for core in ("1.5", "inf", "1e5", "-0.25e-3", "1_0.5"):
+        for c in range(128):
+            ch = chr(c)
+            ftexts += [ch + core, core + ch, ch + core + ch] + [core[:i] + ch + core[i:] for i in range(1, len(core))]
+    alphabet = "0123456789.+-eE_ \t\n\x0b\x0c\r\x1c\x1d\x1e\x1f\x00infatyINFNA"
+    for _ in range((300 if tier == "quick" else 20000) * widen):
+        ftexts.append("".join(rng.choice(alphabet) for _ in range(rng.randint(1, 8))))
+    ftexts = [t for t in ftexts if t]
+    for t, a in zip(ftexts, lib.drive([f"flt.str {lib.hexs(t.encode('ascii'))}" for t in ftexts])):
+        res.evaluations += 1
+        i = float_text_render(t)
+        if i != a:
+            res.tie_break({"op": "flt.str", "hex": t.encode("ascii").hex()}, i, a, "float_text")
+        res.count("float_text_accepted" if i != "ValueError" else "float_text_rejected")
     res.sample({"block": texts[len(texts) // 2].decode("latin-1")[:300]})
+
+
+def float_text_render(t: str) -> str:
+    """float(t) in the notation of the driver's flt.str: exact fraction n/d, inf, -inf, nan, or the exception name"""
+    import math
+    try:
+        f = float(t)
+    except ValueError:
+        return "ValueError"
+    if math.isnan(f):
+        return "nan"
+    if math.isinf(f):
+        return "-inf" if f < 0 else "inf"
+    n, d = f.as_integer_ratio()
+    return ("-" if n < 0 else "") + f"{abs(n)}/{d}"
 
 
 def search(res, tier, seed):
@@ -276,6 +308,11 @@ def replay(payload, res):
         s = c["text"]
         E = round(float(s) * 1000)
         ok = int(float(s) * 1000) in (E, E - 1)
+    elif c["op"] == "flt.str":
+        t = bytes.fromhex(c["hex"]).decode("ascii")
+        i, a = float_text_render(t), lib.drive([f"flt.str {c['hex']}"])[0]
+        print("float(%r): impl %s model %s" % (t, i, a))
+        ok = i == a
     elif c["op"] in ("p1.readout", "automsg"):
         # a whole readout (identification line + data block + end line) through decode_message: compared with the model,
         # and the meter type id with the identification written out independently
